@@ -76,6 +76,19 @@ func longInput(r *prng.Rand, def *refcodec.Msg, shape, n int) []byte {
 		}
 		return nil
 	}
+	switch shape % 7 {
+	case 5:
+		hs := truncHeaders(def)
+		h := hs[r.Intn(len(hs))]
+		for len(out) < n {
+			out = append(out, h...)
+		}
+		return out
+	case 6:
+		if b := nestedDeep(def, r, n, -1); b != nil {
+			return b
+		}
+	}
 	for len(out) < n {
 		switch shape % 5 {
 		case 0: // unknown identifiers
@@ -164,4 +177,87 @@ func dispatchable(sp *refcodec.Spec) []*refcodec.Msg {
 		}
 	}
 	return out
+}
+
+// truncHeaders lists, for every length-bearing optional slot of def, the element
+// header (identifier + length field) with a LEGAL declared length (maximum and
+// middle of the range). Repeated with nothing behind it, such a header is what a
+// scan that allocates before it checks, or that does not advance on a truncated
+// element, pays for over and over.
+func truncHeaders(def *refcodec.Msg) [][]byte {
+	var hs [][]byte
+	for _, si := range def.OptSlots() {
+		sl := &def.Slots[si]
+		for _, l := range []int{sl.Max, (sl.Min + sl.Max) / 2} {
+			if !sl.LenOK(l) || l == 0 {
+				continue
+			}
+			switch sl.Format {
+			case "TLV-E":
+				hs = append(hs, []byte{byte(sl.IEI), byte(l >> 8), byte(l)})
+			case "TLV":
+				hs = append(hs, []byte{byte(sl.IEI), byte(l)})
+			}
+		}
+	}
+	if len(hs) == 0 {
+		hs = [][]byte{{0x7f, 0xff, 0xff}}
+	}
+	return hs
+}
+
+// truncHeaderInput is a valid mandatory part followed by n octets of one header.
+func truncHeaderInput(def *refcodec.Msg, r *prng.Rand, h []byte, n int) []byte {
+	out := refcodec.MinimalBody(def, r)
+	for i := 0; i < n; i += len(h) {
+		out = append(out, h...)
+	}
+	return out
+}
+
+// nestedDeep nests def in its own container slot, level after level, with a minimal
+// mandatory part at every level, up to n octets (nil if def has no container slot).
+func containerSlots(def *refcodec.Msg) []int {
+	var out []int
+	for si := range def.Slots {
+		if isContainerSlot(def.Slots[si].Name) && def.Slots[si].LenSize() == 2 {
+			out = append(out, si)
+		}
+	}
+	return out
+}
+
+func nestedDeep(def *refcodec.Msg, r *prng.Rand, n int, csi int) []byte {
+	if csi < 0 {
+		cs := containerSlots(def)
+		if len(cs) == 0 {
+			return nil
+		}
+		csi = cs[r.Intn(len(cs))]
+	}
+	sl := &def.Slots[csi]
+	inner := refcodec.MinimalBody(def, r)
+	for {
+		b := refcodec.MinimalBody(def, r)
+		if sl.Mandatory {
+			// the container is part of the mandatory part: rebuild with it
+			pl := refcodec.NewPlan(def, r, 0)
+			for j := range pl.Mand {
+				if j >= def.HeaderLen() && def.Slots[j].LenSize() > 0 {
+					m := def.Slots[j].Min
+					pl.Mand[j].Decl, pl.Mand[j].Val = m, make([]byte, m)
+				}
+			}
+			pl.Mand[csi].Decl, pl.Mand[csi].Val = len(inner), inner
+			b = pl.Bytes()
+		} else {
+			b = append(b, byte(sl.IEI), byte(len(inner)>>8), byte(len(inner)))
+			b = append(b, inner...)
+		}
+		if len(b) > n || len(inner) > 65535 {
+			break
+		}
+		inner = b
+	}
+	return inner
 }
